@@ -139,6 +139,14 @@ def check_panel(case, ctx):
             ctx.ok(all(b_[i, j] == np.asarray(a_).ravel()[i * cols + j] for i in range(rows) for j in range(cols)), name + '.layout',
                    '%s[i,j] is not the value at (xs[i,j], ys[i,j]) for %s-layout 2-D point arrays' % (nm, lay))
         if pd.num == 3:
+            with package(name + '.stress'):
+                t5 = p.stress(c, xs=X2, ys=Y2, NLterms=False)
+                t5ref = p.stress(c, xs=xs[:m], ys=ys[:m], NLterms=False)
+            for key in ('Nxx', 'Nyy', 'Nxy', 'Mxx', 'Myy', 'Mxy'):
+                g = np.asarray(t5[key])
+                ctx.ok(g.shape == (rows, cols) and np.array_equal(np.ascontiguousarray(g).ravel(), np.asarray(t5ref[key]).ravel()),
+                       name + '.layout.stress', "stress['%s'][i,j] is not the value at (xs[i,j], ys[i,j]) for points given as a %d x %d "
+                       "array (%s layout)" % (key, rows, cols, lay))
             with package(name + '.strain'):
                 s5 = p.strain(c, xs=X2, ys=Y2, NLterms=False)
                 s5ref = p.strain(c, xs=xs[:m], ys=ys[:m], NLterms=False)
@@ -414,7 +422,8 @@ def _assembly_strategy(draw, tier='quick'):
     for _ in range(npan):
         pc = draw(pkg.panel_case(models=('plate', 'cpanel'), mmax=4, sub_interval=False, max_plies=2))
         pc['explicit_model'] = True
-        pc['group'] = draw(st.sampled_from(['g1', 'g1', 'g2']))
+        # group names as users choose them: one may be contained in another ('flange' / 'flange_upper')
+        pc['group'] = draw(st.sampled_from(['flange', 'flange', 'flange_upper', 'skin']))
         panels.append(pc)
     return {'panels': panels, 'order': list(draw(st.permutations(list(range(npan))))),
             'amps': [draw(gen.fl(-1., 1.)) for _ in range(23)], 'gridx': draw(st.integers(2, 7)), 'gridy': draw(st.integers(2, 7)),
